@@ -32,6 +32,7 @@ func runC19(p *Prog, l *Ledger) {
 	l.Rule("O4", "the gate and the backlog a pool is built from (decided by the C01 and C12 rules on the same tree): the default limiter's answer is the strategy's atomic decision - never more than the limit, no refusal with room; callers are queued while the backlog is under its bound, the length the bound is checked against is the number of queued callers, and a queued caller leaves only by giving up or with the capacity")
 	importObligations(p, l, "C01", "O4", func(o *Obligation) bool { return o.Rule != "O6" })
 	importObligations(p, l, "C12", "O4", func(o *Obligation) bool { return o.Rule == "O1" || o.Rule == "O2" || o.Rule == "O3" })
+	importObligations(p, l, "C13", "O4", func(o *Obligation) bool { return o.Rule == "O8" })
 	n := 0
 	for _, T := range p.structTypes("patterns/pool") {
 		lf := fieldsOfType(T, limNamed)
